@@ -41,6 +41,8 @@ def run_engine(name, gen_args, describe, run, max_report=8, timeout=1500):
                                "case": None, "op": None, "case_text": "", "expected": None, "actual": None, "step": False})
         return
     cases = subprocess.run([os.path.join(out, "hm"), "gen"] + gen_args, stdout=subprocess.PIPE, check=True, timeout=timeout).stdout
+    # comment and blank lines produce no answer line: drop them so that answers stay aligned with cases
+    cases = b"".join(l for l in cases.splitlines(keepends=True) if l.strip() and not l.startswith(b"#"))
     impl = subprocess.run([os.path.join(out, "hm"), "run"], input=cases, stdout=subprocess.PIPE, timeout=timeout)
     # the model side is pure: run it on 16 slices in parallel
     lines = cases.splitlines(keepends=True)
